@@ -1,4 +1,6 @@
-"""Per-property configuration of ./check (what to build, what to generate, what is trusted)."""
+"""Per-property configuration of ./check: one file tools/props/Cxx.py per property, each defining
+CFG (what to build, generate and trust) and MANIFEST (the claim made in MANIFEST.json)."""
+import importlib.util, os
 
 COMMON_TRUST = [
     "Lean 4.33.0 kernel (thorough tier: also leanchecker); axioms limited to propext, Classical.choice, Quot.sound (audited with #print axioms on every run)",
@@ -7,22 +9,14 @@ COMMON_TRUST = [
     "harness observation code (public getters), ./check and the protocol canonicalisation",
 ]
 
-PROPS = {
-    "C11": {
-        "lean_targets": ["Norad.Props.C11"],
-        "audit": "Norad/Audit/C11.lean",
-        "rule": ("all sequences over {move,line,offcurve,curve,qcurve} up to length 7 (quick) / 9 (thorough), format 2; "
-                 "up to length 5 also format 1 and every single-position smooth variant; plus random outlines of 1-4 "
-                 "contours (lengths up to 60, random smooth flags, empty contours) through Glyph::parse_raw. "
-                 "non-trivial = some contour has >= 2 points (exercises a transition of the automaton); distinct by input tokens"),
-        "exhaustive": {"quick": True, "thorough": True},
-        "exhaustive_note": "point-type sequences up to length 7 (quick) / 9 (thorough) are enumerated completely; the random part is not exhaustive",
-        "trusted_base": COMMON_TRUST + [
-            "modelled, not verified: quick-xml tokenising of the generated documents; the attribute parsers of <point> (x, y, type, smooth) are exercised but only the type/smooth/coordinate echo is compared",
-            "u32 saturation of the off-curve counter is unreachable below 2^32 points and is modelled with Nat",
-        ],
-        "assumptions": [
-            "the generated documents use no identifiers, names or libs, so only the builder automaton (builder.rs:73-168) and the contour plumbing of parse.rs decide acceptance",
-        ],
-    },
-}
+PROPS = {}
+MANIFESTS = {}
+_d = os.path.join(os.path.dirname(os.path.abspath(__file__)), "props")
+for _fn in sorted(os.listdir(_d)):
+    if _fn.endswith(".py") and _fn[0] == "C":
+        _spec = importlib.util.spec_from_file_location("props_" + _fn[:-3], os.path.join(_d, _fn))
+        _m = importlib.util.module_from_spec(_spec)
+        _m.COMMON_TRUST = COMMON_TRUST
+        _spec.loader.exec_module(_m)
+        PROPS[_fn[:-3]] = _m.CFG
+        MANIFESTS[_fn[:-3]] = _m.MANIFEST
